@@ -75,6 +75,9 @@ Definition market_withdraw (cx : Ctx) (oid : Z) (o : Order) : M Z :=
                go rest (refund + dec_mul_int inc (i64 (sh_created sh + sh_duration sh) - cx_height cx))
              else if sh_status sh =? ShardWaiting then
                go rest (refund + dec_mul_int inc (i64 (o_duration o)))
+             else if (sh_status sh =? ShardCompleted) && (sh_order sh <? oid) then
+               (* D11 repair: a renewal whose period has not started for this shard *)
+               go rest (refund + dec_mul_int inc (i64 (o_duration o)))
              else go rest refund
          end
      end) (o_shards o) base.
@@ -225,9 +228,11 @@ Definition reset_expired_height (s : State) (ords : list Z) : Z :=
     | None => mx end) ords 0.
 
 (* ResetMetaDuration(&meta): returns the updated meta (not stored) *)
-Definition reset_meta_duration (data : string) (m : Meta) : M Meta :=
+Definition reset_meta_duration (cx : Ctx) (data : string) (m : Meta) : M Meta :=
   s <- get ;;
-  let eh := reset_expired_height s (m_orders m) in
+  let eh0 := reset_expired_height s (m_orders m) in
+  (* D22 repair: with no live shard the model expires at the next block *)
+  let eh := if eh0 <=? u64 (cx_height cx) then u64 (cx_height cx) + 1 else eh0 in
   let nd := u64 (eh - m_created m) in
   if m_duration m =? nd then ret m else
   remove_data_expire data (u64 (m_created m + m_duration m)) ;;;
@@ -312,7 +317,7 @@ Definition update_meta (cx : Ctx) (oid : Z) (o : Order) : M unit :=
                    let commits' := removelast (m_commits m) ++ [version_str (o_commit o) (cx_height cx)] in
                    let m1 := m <| m_cid := o_cid o |> <| m_commit := o_commit o |> <| m_commits := commits' |>
                                <| m_orders := rev rev_left ++ [oid] |> in
-                   reset_meta_duration (o_data o) m1
+                   reset_meta_duration cx (o_data o) m1
                end
              else if o_op o =? 3 then
                ret (m <| m_order := oid |> <| m_orders := m_orders m ++ [oid] |>)
@@ -337,7 +342,7 @@ Definition update_meta_status_commit (cx : Ctx) (oid : Z) (o : Order) : M unit :
       modify (fun s => s <| metas ::= <[o_data o := m1 <| m_status := i32 (o_op o) |> <| m_commit := o_commit o |> <| m_order := oid |>]> |>)
   end.
 
-Definition rollback_meta (data : string) : M unit :=
+Definition rollback_meta (cx : Ctx) (data : string) : M unit :=
   s <- get ;;
   match metas s !! data with
   | None => ret tt
@@ -351,20 +356,20 @@ Definition rollback_meta (data : string) : M unit :=
           | None => panic "index out of range"
           | Some lo =>
               let m1 := m <| m_status := MetaComplete |> <| m_commit := commit_of_version lastv |> <| m_order := lo |> in
-              m2 <- reset_meta_duration data m1 ;;
+              m2 <- reset_meta_duration cx data m1 ;;
               modify (fun s => s <| metas ::= <[data := m2]> |>)
           end
       end
   end.
 
-Definition cancel_order (oid : Z) : M unit :=
+Definition cancel_order (cx : Ctx) (oid : Z) : M unit :=
   s <- get ;;
   let data := match orders s !! oid with Some o => o_data o | None => "" end in
   r <- try_ (refund_order oid) ;;
   match r with
   | None => fail "RefundOrder"
   | Some _ =>
-      rollback_meta data ;;;
+      rollback_meta cx data ;;;
       modify (fun s => s <| orders ::= delete oid |>)
   end.
 
